@@ -5,7 +5,7 @@ From VGI Require Import Corr M_Wire L_Wire M_WireConn.
 Import ListNotations.
 Open Scope N_scope.
 
-Local Opaque err_event finish_refused no_data_batch empty_batch proto_exn bad_return_exn missing_header_exn.
+Local Opaque err_event finish_refused no_data_batch empty_batch proto_exn bad_return_exn no_header_exn.
 
 (* ------------------------------------------------------------------ (1) same observations as M_Wire *)
 Lemma conn_prod_pipe c : forall sts alive n q,
@@ -33,35 +33,40 @@ Proof.
   destruct (conn_exch c (alive && negb ended) (tl sts) n r') as [es' z]. reflexivity.
 Qed.
 
-(* what [norm] does, by outcome of the init *)
+(* what the init does, by outcome *)
+Lemma outcome_none exch sp h : init_outcome exch sp h = None ->
+  ires sp = InitOk /\ (h = true -> exists x, hdr sp = Some x).
+Proof.
+  unfold init_outcome. destruct (ires sp) as [|e|]; try discriminate. intro H. split; [reflexivity|].
+  intros ->. destruct (hdr sp) as [x|]; [eexists; reflexivity|discriminate H].
+Qed.
+
+Lemma eff_ok v sp pr h : eff_init v sp pr h = IOk -> init_outcome (negb pr) sp h = None.
+Proof.
+  unfold eff_init. destruct (init_outcome (negb pr) sp h) as [e|]; [|reflexivity].
+  destruct (ires sp); try destruct (checks_stream_result v); discriminate.
+Qed.
+
+Lemma eff_err v sp pr h e : eff_init v sp pr h = IErr e -> init_outcome (negb pr) sp h = Some e.
+Proof.
+  unfold eff_init. destruct (init_outcome (negb pr) sp h) as [e'|]; [|discriminate].
+  destruct (ires sp); try destruct (checks_stream_result v); intro H; try discriminate H; injection H as ->; reflexivity.
+Qed.
+
+Lemma eff_not_dead v sp pr h e : eff_init v sp pr h <> IDead -> init_outcome (negb pr) sp h = Some e -> eff_init v sp pr h = IErr e.
+Proof.
+  unfold eff_init. intros H E. rewrite E in *. destruct (ires sp); try reflexivity; destruct (checks_stream_result v); try reflexivity; exfalso; apply H; reflexivity.
+Qed.
+
 Lemma norm_ok v sc sp : eff_init v sp (is_producer sc) (has_header sc) = IOk ->
   norm v sc (PStream sp) = PStream sp /\ ires sp = InitOk /\ (has_header sc = true -> exists x, hdr sp = Some x).
 Proof.
-  intro H. unfold norm. rewrite H. split; [reflexivity|].
-  unfold eff_init in H. destruct (ires sp) as [|e|].
-  - split; [reflexivity|]. intro Hh. rewrite Hh in H. destruct (hdr sp) as [x|]; [eexists; reflexivity|].
-    destruct (checks_stream_result v); discriminate H.
-  - discriminate H.
-  - destruct (checks_stream_result v); discriminate H.
+  intro H. unfold norm. rewrite H. split; [reflexivity|]. exact (outcome_none _ _ _ (eff_ok _ _ _ _ H)).
 Qed.
 
 Lemma norm_err v sc sp e : eff_init v sp (is_producer sc) (has_header sc) = IErr e ->
   norm v sc (PStream sp) = PStream {| ilogs := ilogs sp; ires := InitRaise e; hdr := Some 0%Z; steps := steps sp |}.
 Proof. unfold norm. intro H. rewrite H. reflexivity. Qed.
-
-Lemma norm_dead v sc sp : eff_init v sp (is_producer sc) (has_header sc) = IDead ->
-  norm v sc (PStream sp) = PStream sp /\ srv_init sp (has_header sc) = ([], false).
-Proof.
-  unfold norm. intro H. rewrite H. split; [reflexivity|].
-  unfold eff_init in H. unfold srv_init. destruct (ires sp) as [|e|]; [|discriminate H|reflexivity].
-  destruct (has_header sc), (hdr sp); try discriminate H; reflexivity.
-Qed.
-
-Lemma srv_init_ok sp h : ires sp = InitOk -> (h = true -> exists x, hdr sp = Some x) -> snd (srv_init sp h) = true.
-Proof.
-  intros Hi Hh. unfold srv_init. rewrite Hi. destruct h; [|reflexivity].
-  destruct (Hh eq_refl) as [x ->]. reflexivity.
-Qed.
 
 Lemma cli_drain_eos c x : cli_drain c (FEos :: x) = [].
 Proof. reflexivity. Qed.
@@ -72,79 +77,79 @@ Proof. intro Hn. destruct sts; cbn [pipe_prod]; rewrite Hn; reflexivity. Qed.
 Lemma pipe_exch_empty_dead c sts n : n <> O -> pipe_exch c false sts n [] = ([EBlocked], Over).
 Proof. intro Hn. destruct n; [congruence|]. reflexivity. Qed.
 
-(* the stream part, stated over the body functions *)
-Lemma conn_stream_obs v sp sc producer h c a reads
+(* the stream part, stated over the body functions: unless a fault escapes serve() (a source without the guards), the
+   connection model observes what M_Wire's socket model observes *)
+Lemma conn_stream_obs v sp producer h c a reads
       (body : bool -> list frame -> list event * sess) (cbody : list frame -> list event * bend) :
-  producer = is_producer sc -> h = has_header sc ->
+  eff_init v sp producer h <> IDead ->
   (forall q, body true q = (fst (cbody q), sess_of (snd (cbody q)))) ->
   (forall e, reads = true -> body false [FErr e; FEos] = ([err_event e], Over)) ->
   (forall q, reads = false -> body false q = ([], Live q false)) ->
-  (reads = true -> body false [] = ([EBlocked], Over)) ->
-  forall sp', norm v sc (PStream sp) = PStream sp' -> steps sp' = steps sp ->
-  fst (conn_stream v sp producer h c a reads cbody) = pipe_stream sp' h c a body.
+  fst (conn_stream v sp producer h c a reads cbody) = pipe_stream_for (negb producer) sp h c a body.
 Proof.
-  intros -> -> Hb Herr Hzero Hdead sp' Hn Hsteps.
-  unfold conn_stream, pipe_stream.
-  destruct (eff_init v sp (is_producer sc) (has_header sc)) as [|e|] eqn:E.
-  - (* init ok *)
-    destruct (norm_ok v sc sp E) as [Hn' [Hi Hh]]. rewrite Hn' in Hn. injection Hn as <-.
-    pose proof (srv_init_ok sp (has_header sc) Hi Hh) as Ha.
-    destruct (srv_init sp (has_header sc)) as [q0 alive]. cbn [fst snd] in *. subst alive.
-    destruct (has_header sc).
-    + destruct (cli_read c q0) as [[es o] r]. destruct o; try reflexivity.
-      rewrite (Hb (skip_eos r)). destruct (cbody (skip_eos r)) as [es' z]. reflexivity.
-    + rewrite (Hb q0). destruct (cbody q0) as [es' z]. reflexivity.
-  - (* init error / rejection / repaired fault *)
-    rewrite (norm_err v sc sp e E) in Hn. injection Hn as <-.
-    unfold srv_init. cbn [ires].
-    destruct (has_header sc).
+  intros Hlive Hb Herr Hzero.
+  unfold conn_stream, pipe_stream_for, srv_init_for.
+  destruct (init_outcome (negb producer) sp h) as [e|] eqn:E.
+  - (* init error / rejection / answered fault *)
+    rewrite (eff_not_dead v sp producer h e Hlive E).
+    destruct h.
     + reflexivity.
     + unfold conn_top. destruct reads.
       * rewrite (Herr e eq_refl). reflexivity.
       * rewrite (Hzero _ eq_refl). destruct a; reflexivity.
-  - (* an exception escaped serve() *)
-    destruct (norm_dead v sc sp E) as [Hn' Hs]. rewrite Hn' in Hn. injection Hn as <-.
-    rewrite Hs. unfold conn_dead.
-    destruct (has_header sc); [reflexivity|].
-    destruct reads.
-    + rewrite (Hdead eq_refl). reflexivity.
-    + rewrite (Hzero _ eq_refl). destruct a; reflexivity.
+  - (* init ok *)
+    assert (Ho : eff_init v sp producer h = IOk) by (unfold eff_init; rewrite E; reflexivity).
+    rewrite Ho. destruct (outcome_none _ _ _ E) as [Hi Hh].
+    destruct h.
+    + destruct (Hh eq_refl) as [x Hx]. rewrite Hx. cbn [fst].
+      destruct (cli_read c (map FLog (ilogs sp) ++ [FHdr x; FEos])) as [[es o] r]. destruct o; try reflexivity.
+      rewrite (Hb (skip_eos r)). destruct (cbody (skip_eos r)) as [es' z]. reflexivity.
+    + cbn [fst]. rewrite (Hb (map FLog (ilogs sp))). destruct (cbody (map FLog (ilogs sp))) as [es' z]. reflexivity.
 Qed.
 
-Lemma norm_stream v sc sp : exists sp', norm v sc (PStream sp) = PStream sp' /\ steps sp' = steps sp.
+Theorem conn_call_obs : forall v p sc, uncaught_fault v p sc = false -> fst (conn_call v p sc) = run_pipe p sc.
 Proof.
-  unfold norm. destruct (eff_init v sp (is_producer sc) (has_header sc)); eexists; split; reflexivity.
-Qed.
-
-Theorem conn_call_obs : forall v p sc, fst (conn_call v p sc) = run_pipe (norm v sc p) sc.
-Proof.
-  intros v p sc. unfold conn_call, run_pipe.
+  intros v p sc Hu. unfold conn_call, run_pipe.
   destruct p as [u|sp].
-  - (* unary program *)
-    cbn [norm]. destruct sc as [c|h k a c|h n a c]; try reflexivity.
+  - destruct sc as [c|h k a c|h n a c]; try reflexivity.
     unfold conn_unary, unary_reply.
     destruct (cli_read c _) as [[es o] r]. destruct o; destruct (ures_of u); reflexivity.
-  - destruct (norm_stream v sc sp) as [sp' [Hn Hst]]. rewrite Hn.
-    destruct sc as [c|h k a c|h n a c].
+  - destruct sc as [c|h k a c|h n a c].
     + reflexivity.
     + fold (iter_lim k a).
       match goal with |- fst (let '(t, c') := ?X in _) = _ => destruct X as [t c'] eqn:EX end.
-      cbn [fst]. f_equal.
-      change t with (fst (t, c')). rewrite <- EX. rewrite Hst.
-      apply (conn_stream_obs v sp (SIter h k a c) true h c a _ (fun alive q => pipe_prod c alive (steps sp) (iter_lim k a) q)); try reflexivity; try exact Hn; try exact Hst.
+      cbn [fst]. f_equal. change t with (fst (t, c')). rewrite <- EX.
+      change false with (negb true).
+      apply (conn_stream_obs v sp true h c a _ (fun alive q => pipe_prod c alive (steps sp) (iter_lim k a) q)).
+      * cbn in Hu. intro E. rewrite E in Hu. discriminate Hu.
       * intro q. apply conn_prod_pipe.
       * intros e Hr. apply pipe_prod_initraise. destruct (is_zero (iter_lim k a)); [discriminate Hr|reflexivity].
       * intros q Hr. destruct (is_zero (iter_lim k a)) eqn:Hz; [|discriminate Hr].
         destruct (iter_lim k a) as [[|?]|]; try discriminate Hz. apply pipe_prod_zero.
-      * intro Hr. apply pipe_prod_empty_dead. destruct (is_zero (iter_lim k a)); [discriminate Hr|reflexivity].
     + match goal with |- fst (let '(t, c') := ?X in _) = _ => destruct X as [t c'] eqn:EX end.
-      cbn [fst]. f_equal.
-      change t with (fst (t, c')). rewrite <- EX. rewrite Hst.
-      apply (conn_stream_obs v sp (SExch h n a c) false h c a _ (fun alive q => pipe_exch c alive (steps sp) n q)); try reflexivity; try exact Hn; try exact Hst.
+      cbn [fst]. f_equal. change t with (fst (t, c')). rewrite <- EX.
+      change true with (negb false) at 1.
+      apply (conn_stream_obs v sp false h c a _ (fun alive q => pipe_exch c alive (steps sp) n q)).
+      * cbn in Hu. intro E. rewrite E in Hu. discriminate Hu.
       * intro q. apply conn_exch_pipe.
       * intros e Hr. apply pipe_exch_initraise. destruct n; [discriminate Hr|congruence].
       * intros q Hr. destruct n; [reflexivity|discriminate Hr].
-      * intro Hr. apply pipe_exch_empty_dead. destruct n; [discriminate Hr|congruence].
+Qed.
+
+Lemma checks_no_uncaught v p sc : checks_stream_result v = true -> uncaught_fault v p sc = false.
+Proof.
+  intro Hc. destruct p as [u|sp]; destruct sc as [c|h k a c|h n a c]; try reflexivity; cbn; unfold eff_init;
+    destruct (init_outcome _ sp h); try reflexivity; destruct (ires sp); rewrite ?Hc; reflexivity.
+Qed.
+
+(* writing an answered fault as the init error it is answered with does not change the observation *)
+Lemma run_pipe_norm v p sc : run_pipe (norm v sc p) sc = run_pipe p sc.
+Proof.
+  destruct p as [u|sp]; [reflexivity|]. unfold norm.
+  destruct (eff_init v sp (is_producer sc) (has_header sc)) as [|e|] eqn:E; try reflexivity.
+  apply eff_err in E. unfold run_pipe. f_equal.
+  destruct sc as [c|h k a c|h n a c]; try reflexivity; cbn [is_producer has_header negb] in E;
+    unfold pipe_stream_for, srv_init_for; rewrite E; reflexivity.
 Qed.
 
 (* ------------------------------------------------------------------ (2) clean after a well-behaved call *)
@@ -280,10 +285,8 @@ Lemma conn_stream_clean v sp producer h a reads (cbody : list frame -> list even
 Proof.
   intros Hil Hbody Hless Hdead Hra. unfold conn_stream.
   destruct (eff_init v sp producer h) as [|e|] eqn:E.
-  - assert (Hi : ires sp = InitOk /\ (h = true -> exists x, hdr sp = Some x)).
-    { unfold eff_init in E. destruct (ires sp) as [|e|]; [|discriminate E|destruct (checks_stream_result v); discriminate E].
-      split; [reflexivity|]. intros ->. destruct (hdr sp) as [x|]; [eexists; reflexivity|destruct (checks_stream_result v); discriminate E]. }
-    destruct Hi as [Hi Hh]. unfold srv_init. rewrite Hi.
+  - pose proof (eff_ok _ _ _ _ E) as Eo. destruct (outcome_none _ _ _ Eo) as [Hi Hh].
+    unfold srv_init_for. rewrite Eo.
     destruct h.
     + destruct (Hh eq_refl) as [x Hx]. rewrite Hx. cbn [fst].
       rewrite (cli_read_logs (ilogs sp) _ Hil). cbn [cli_read skip_eos].
@@ -328,7 +331,16 @@ Qed.
 
 (* ------------------------------------------------------------------ (3) histories *)
 Definition wb (v : variant) (x : prog * script) : Prop := wellbehaved v (fst x) (snd x) = true.
-Definition own (v : variant) (x : prog * script) : outcome := Obs (run_pipe (norm v (snd x) (fst x)) (snd x)).
+(* its own response: what the call observes on a fresh connection *)
+Definition own (x : prog * script) : outcome := Obs (run_pipe (fst x) (snd x)).
+
+Lemma wb_no_uncaught v p sc : wellbehaved v p sc = true -> uncaught_fault v p sc = false.
+Proof.
+  unfold wellbehaved. intro H. apply andb_true_iff in H as [Hs H].
+  destruct p as [u|sp]; destruct sc as [c|h k a c|h n a c]; try reflexivity; try discriminate Hs;
+    repeat (apply andb_true_iff in H as [H ?]);
+    match goal with Hx : negb (uncaught_fault _ _ _) = true |- _ => apply negb_true_iff in Hx; exact Hx end.
+Qed.
 
 Lemma conn_after_seq_dirty v c calls : clean c = false -> conn_after_seq v c calls = c.
 Proof. intro H. destruct calls as [|[p sc] r]; [reflexivity|]. cbn [conn_after_seq]. rewrite H. reflexivity. Qed.
@@ -343,22 +355,22 @@ Proof.
 Qed.
 
 Theorem run_seq_wb v : forall calls c, clean c = true -> Forall (wb v) calls ->
-  run_seq v c calls = map (own v) calls /\ clean (conn_after_seq v c calls) = true.
+  run_seq v c calls = map own calls /\ clean (conn_after_seq v c calls) = true.
 Proof.
   induction calls as [|[p sc] r IH]; intros c Hc Hall; [split; [reflexivity|exact Hc]|].
   inversion Hall as [|x l Hx Hr]; subst. cbn [run_seq conn_after_seq map]. rewrite Hc.
-  pose proof (conn_call_obs v p sc) as Ho. pose proof (conn_clean_after v p sc Hx) as Hcl.
+  pose proof (conn_call_obs v p sc (wb_no_uncaught v p sc Hx)) as Ho. pose proof (conn_clean_after v p sc Hx) as Hcl.
   destruct (conn_call v p sc) as [t c'] eqn:E. cbn [fst snd] in *.
   destruct (IH c' Hcl Hr) as [IH1 IH2]. split; [|exact IH2].
   rewrite IH1. unfold own at 2. cbn [fst snd]. rewrite Ho. reflexivity.
 Qed.
 
-Theorem next_call_own v : forall hist p sc, Forall (wb v) hist ->
-  run_seq v conn0 (hist ++ [(p, sc)]) = map (own v) hist ++ [own v (p, sc)].
+Theorem next_call_own v : forall hist p sc, Forall (wb v) hist -> uncaught_fault v p sc = false ->
+  run_seq v conn0 (hist ++ [(p, sc)]) = map own hist ++ [own (p, sc)].
 Proof.
-  intros hist p sc Hall. rewrite run_seq_app.
+  intros hist p sc Hall Hu. rewrite run_seq_app.
   destruct (run_seq_wb v hist conn0 eq_refl Hall) as [H1 H2]. rewrite H1. f_equal.
-  cbn [run_seq]. rewrite H2. pose proof (conn_call_obs v p sc) as Ho.
+  cbn [run_seq]. rewrite H2. pose proof (conn_call_obs v p sc Hu) as Ho.
   destruct (conn_call v p sc) as [t c']. cbn [fst] in Ho. rewrite Ho. reflexivity.
 Qed.
 
@@ -436,7 +448,7 @@ Local Opaque err_event.
 
 Lemma unary_no_blocked u c : ~ In EBlocked (run_pipe (PUnary u) (SUnary c)).
 Proof.
-  intro H. change (PUnary u) with (norm v_old (SUnary c) (PUnary u)) in H. rewrite <- conn_call_obs in H.
+  intro H. rewrite <- (conn_call_obs v_old (PUnary u) (SUnary c) eq_refl) in H.
   unfold conn_call, conn_unary in H.
   pose proof (unary_tail c u) as T. pose proof (cli_read_no_blocked c (unary_reply u)) as N.
   destruct (cli_read c (unary_reply u)) as [[es o] r]. destruct T as [_ [Hd _]]. destruct (N Hd) as [N1 N2]. cbn [fst snd] in *.
@@ -475,14 +487,14 @@ Proof.
 Qed.
 
 Theorem wb_observe v p sc : (match sc with SUnary _ => False | _ => True end) -> wellbehaved v p sc = true ->
-  run_pipe (norm v sc p) sc = cut (observe (norm v sc p) sc).
+  run_pipe p sc = cut (observe (norm v sc p) sc).
 Proof.
-  intros Hs H. destruct p as [u|sp].
+  intros Hs H. rewrite <- (run_pipe_norm v p sc). destruct p as [u|sp].
   - unfold wellbehaved in H. destruct sc; try contradiction; discriminate H.
   - destruct (wb_stream_refines v sp sc Hs H) as [H1 [H2 [H3 H4]]]. apply pipe_refines; assumption.
 Qed.
 
-Theorem wb_no_blocked v p sc : wellbehaved v p sc = true -> ~ In EBlocked (run_pipe (norm v sc p) sc).
+Theorem wb_no_blocked v p sc : wellbehaved v p sc = true -> ~ In EBlocked (run_pipe p sc).
 Proof.
   intros H. destruct sc as [c|h k a c|h n a c].
   - destruct p as [u|sp]; [apply unary_no_blocked|discriminate H].
